@@ -61,17 +61,20 @@ def DATEDIF(
     datetime_start_date = utils.number_to_datetime(int(start_date))
     datetime_end_date = utils.number_to_datetime(int(end_date))
 
+    # Complete months: a month counts once the day of the start date is
+    # reached again.  (An rrule recurrence cannot be used for this, because
+    # it skips the months and years that lack the start day, e.g. the 31st
+    # or 29 February.)
+    complete_months = (
+        (datetime_end_date.year - datetime_start_date.year) * 12
+        + (datetime_end_date.month - datetime_start_date.month)
+        - (1 if datetime_end_date.day < datetime_start_date.day else 0))
+
     if str(unit).upper() == 'Y':
-        date_list = list(rrule.rrule(rrule.YEARLY,
-                                     dtstart=datetime_start_date,
-                                     until=datetime_end_date))
-        return len(date_list) - 1  # end of day to end of day / "full days"
+        return complete_months // 12
 
     elif str(unit).upper() == 'M':
-        date_list = list(rrule.rrule(rrule.MONTHLY,
-                                     dtstart=datetime_start_date,
-                                     until=datetime_end_date))
-        return len(date_list) - 1  # end of day to end of day / "full days"
+        return complete_months
 
     elif str(unit).upper() == 'D':
         date_list = list(rrule.rrule(rrule.DAILY,
